@@ -20,10 +20,17 @@ def run(tier, seed):
                 'not decided by proof: the npz / csv encoders, TDSData loaders, from_csv replay, get_data and the pandas data frames (bounded native stand-ins only)')
     items = [(O.dae_store('C15', False),), (O.dae_store('C15', True),), (O.unpack_np('C15'),), (O.write_npz('C15'), None, O.replay_write_npz), (O.export_csv('C15'), None, O.replay_export_csv),
              (O.write_lst('C15'),), (O.to_output_addr('C15'), None, O.replay_to_output_addr), (O.set_output_subidx_tail('C15'), None, O.replay_output_selection)] + [(c,) for c in O.in1d('C15')] + \
-            [(T.run('C15', drop=('success=>initialisation-test-not-failed',)),)]
+            [(T.run('C15', drop=('success=>initialisation-test-not-failed',)), None, O.replay_thinning)]
     run_contracts(pack, items)
     O.bounded_loader_roundtrip(pack, 'C15')
     from contracts.packutil import native_guard
+    tname = 'C15/andes/routines/tds.py:TDS.run/bounded:thinned-storage-keeps-rows-of-accepted-steps-only,also-when-the-run-stops-early'
+    r = native_guard(pack, tname, O.replay_thinning)
+    if r is not None:
+        pack.bounded.append({'function': 'TDS.run with save_every = 2, 3, 5 (end to end)', 'runs': r.get('tried', 0), 'counted_as_proved': False,
+                             'kind': 'bounded native: kundur_full, one run stopped by the angle criterion and one plain run, against storage at every step'})
+        if r.get('confirmed'):
+            pack.violation(tname, {'bounded': True, 'inputs': r.get('inputs'), 'observed': r.get('observed'), 'native_cmd': r.get('native_cmd')})
     from contracts import bounded_getdata as BG
     name = 'C15/andes/variables/dae.py:DAETimeSeries.get_data;unpack_df/bounded:accessors-return-the-stored-columns-under-the-right-names'
     r = native_guard(pack, name, BG.run)
